@@ -164,6 +164,33 @@ template <class O1, class O2> static bool same(const O1 & a, const O2 & b)
     }
 }
 
+// behavioural equality of the layout layer of two stacks of the same type: the lookups of both agree bit for bit at EVERY lattice
+// coordinate inside the reported extents (state that the accessors do not report - a cached member - shows here)
+template <class O> static bool same_lookup(const O & a, const O & b)
+{
+    using B = typename O::parent_t;
+    constexpr kind k = kind_of<B>::value;
+    if constexpr (k == K_STRIDED || k == K_MORTON || k == K_HILBERT) {
+        constexpr size_t N = B::contravariant_input_t::dimensions;
+        typename B::non_owning_data_t va(a), vb(b);
+        auto s = a.get_configuration();
+        size_t idx[N];
+        for (size_t i = 0; i < N; i++) { idx[i] = 0; if (s[i] == 0) return true; }
+        bool ok = true;
+        for (;;) {
+            typename B::contravariant_input_t::vector_t c;
+            for (size_t i = 0; i < N; i++) c[i] = static_cast<typename B::contravariant_input_t::scalar_t>(idx[i]);
+            ok = ok && same_arr(va.at(c), vb.at(c));
+            size_t d = N;
+            while (d > 0) { d--; if (++idx[d] < s[d]) break; idx[d] = 0; if (d == 0) return ok; }
+        }
+    } else if constexpr (k == K_ARRAY || k == K_CONSTANT || k == K_IDENTITY || k == K_PROBE) {
+        return true;
+    } else {
+        return same_lookup(a.get_backend(), b.get_backend());
+    }
+}
+
 // does the stack end in array storage?
 template <class B> static constexpr bool has_array()
 {
